@@ -66,6 +66,26 @@ Additions for the Units group (additive; output of the other groups unchanged):
  * a statement-pattern template that is empty drops the statement (constructor lines with no counterpart in the view).
  * `if c: x.f = X else: x.f = Y` (attribute targets) is NOT merged into one `let`: the two assignments are translated
    by their statement patterns inside an ordinary if / else.
+
+Generic rules added for the Roles package (all additive; the output for the earlier groups is unchanged):
+ * `x in (a, b, c)` / `not in`: a literal tuple on the right is a container, written as a Lean list;
+ * list comprehensions with a tuple target (`[v for v, node in items if …]` -> `fun (v, node) => …`);
+ * `a is b` / `a is not b` between objects -> `Py.is_ a b` (identity = equality of the representing identity numbers);
+ * `{}` -> `Py.emptyDict`, `{k: v for x in xs}` -> `Py.dictOf (xs.map fun x => (k, v))`;
+ * spec option `dict_names: [d, …]`: for these names `x in d` -> `Py.isIn x (Py.keys d)` and the statement
+   `d[k] = v` -> `d := Py.setItem d k v` (class `Py.DictLike` of Tie/Prelude.lean);
+ * spec option `skip_defs: [f, …]`: nested `def f` that is translated as a function of its own (`func: 'Outer.f'`,
+   open recursion) and reaches the outer function as a parameter / pattern;
+ * spec option `returns_state: [s, …]`: `return X` -> `return (X, s, …)` (a python object mutated in place through
+   the calls, threaded as explicit state);
+ * a parameter that is assigned in the body becomes `let mut p := p`;
+ * `try: NAME = E  except K: <handler that returns or raises>` -> `let NAME ← try E catch e__ => …` (python's
+   function-level scope of NAME);
+ * spec option `retyped_names` (any non-empty list): a top-level assignment of a multiply-assigned name that is followed
+   by another top-level assignment of it is an immutable `let` (the next one shadows it: python may change the type of
+   the value, `expr = map[v]` then `expr = f(expr.rhs)`); the last one before a nested assignment is the `let mut`;
+ * `if A and B:` without `else`, where an operand is monadic (`(← …)`): nested `if A then if B then …`, so that the
+   effect of B stays behind the short-circuit.
 """
 import ast
 import copy
@@ -156,6 +176,8 @@ class Fn:
         self.skip_prefixes = tuple(spec.get('skip_calls', ['logger.']))
         self.mut = set(spec.get('mutable', []))
         self.declared = set()
+        self.shadowed = set()
+        self.shadow_ok = set()
         self.for_depth = 0
         self.loop_vars = []          # [(names of the for target, indentation of the loop body)]
         self.lines = []
@@ -248,10 +270,20 @@ class Fn:
                 g = n.args[0].generators[0]
                 return '((%s).%s (fun %s => %s))' % (self.expr(g.iter), f.id, mangle(g.target.id),
                                                     self.cond(n.args[0].elt))
-        if isinstance(n, ast.ListComp) and len(n.generators) == 1 and isinstance(n.generators[0].target, ast.Name):
+        if isinstance(n, ast.Dict) and not n.keys:
+            return 'Py.emptyDict'
+        if isinstance(n, ast.DictComp) and len(n.generators) == 1 and not n.generators[0].ifs and \
+                isinstance(n.generators[0].target, ast.Name):
+            g = n.generators[0]
+            return '(Py.dictOf ((%s).map (fun %s => (%s, %s))))' % (self.expr(g.iter), mangle(g.target.id),
+                                                                   self.expr(n.key), self.expr(n.value))
+        if isinstance(n, ast.ListComp) and len(n.generators) == 1 and \
+                (isinstance(n.generators[0].target, ast.Name) or
+                 (isinstance(n.generators[0].target, ast.Tuple) and
+                  all(isinstance(e, ast.Name) for e in n.generators[0].target.elts))):
             g = n.generators[0]
             xs = self.expr(g.iter)
-            v = mangle(g.target.id)
+            v = self.target_text(g.target)
             for c in g.ifs:
                 xs = '((%s).filter (fun %s => %s))' % (xs, v, self.cond(c))
             return '((%s).map (fun %s => %s))' % (xs, v, self.expr(n.elt))
@@ -268,6 +300,9 @@ class Fn:
                 parts.append(hit)
             elif isinstance(op, (ast.Is, ast.IsNot)) and isinstance(right, ast.Constant) and right.value is None:
                 parts.append('(%s).%s' % (self.expr(left), 'isNone' if isinstance(op, ast.Is) else 'isSome'))
+            elif isinstance(op, (ast.Is, ast.IsNot)):
+                parts.append('(%sPy.is_ %s %s)' % ('!' if isinstance(op, ast.IsNot) else '', self.expr(left),
+                                                  self.expr(right)))
             elif isinstance(op, ast.Eq):
                 parts.append('(%s == %s)' % (self.expr(left), self.expr(right)))
             elif isinstance(op, ast.NotEq):
@@ -276,13 +311,21 @@ class Fn:
                 sym = {ast.Lt: '<', ast.LtE: '≤', ast.Gt: '>', ast.GtE: '≥'}[type(op)]
                 parts.append('(decide (%s %s %s))' % (self.expr(left), sym, self.expr(right)))
             elif isinstance(op, ast.In):
-                parts.append('(Py.isIn %s %s)' % (self.expr(left), self.expr(right)))
+                parts.append('(Py.isIn %s %s)' % (self.expr(left), self.container(right)))
             elif isinstance(op, ast.NotIn):
-                parts.append('(!(Py.isIn %s %s))' % (self.expr(left), self.expr(right)))
+                parts.append('(!(Py.isIn %s %s))' % (self.expr(left), self.container(right)))
             else:
                 raise TranslationError('no rule for the comparison `%s`' % src(one))
             left = right
         return parts[0] if len(parts) == 1 else '(' + ' && '.join(parts) + ')'
+
+    def container(self, n):
+        """right operand of `in` / `not in`: a literal tuple `(a, b, c)` is a container, written as a Lean list"""
+        if isinstance(n, ast.Tuple) and self.try_patterns(n) is None:
+            return '[' + ', '.join(self.expr(e) for e in n.elts) + ']'
+        if isinstance(n, ast.Name) and n.id in self.spec.get('dict_names', []):
+            return '(Py.keys %s)' % mangle(n.id)
+        return self.expr(n)
 
     def cond(self, n):
         """An expression in a truth-value position: python truthiness through the `Py.Truthy` class."""
@@ -396,11 +439,21 @@ class Fn:
     def target_names(self, t):
         return [t.id] if isinstance(t, ast.Name) else [e.id for e in t.elts]
 
-    def assign(self, ind, target, rhs_text):
+    def assign(self, ind, target, rhs_text, shadow=False):
         names = self.target_names(target)
         monadic = rhs_text.startswith('←')
         rhs = rhs_text[1:].strip() if monadic else rhs_text
         loopvars = {nm for vs, _ in self.loop_vars for nm in vs}
+        if shadow:
+            # a top-level assignment that is followed by another top-level assignment of the same name: an immutable
+            # `let` (the next one shadows it; python may change the type of the value from one to the next)
+            self.emit(ind, 'let %s %s %s' % (self.target_text(target), '←' if monadic else ':=', rhs))
+            self.declared.update(names)
+            self.shadowed.update(names)
+            return
+        if any(nm in self.shadowed for nm in names):
+            self.declared.difference_update(names)
+            self.shadowed.difference_update(names)
         if all(nm in self.declared and nm in self.mut for nm in names) and not any(nm in loopvars for nm in names):
             self.emit(ind, '%s %s %s' % (self.target_text(target), '←' if monadic else ':=', rhs))
             return
@@ -469,7 +522,15 @@ class Fn:
         if isinstance(s, ast.Assign):
             if len(s.targets) != 1:
                 raise TranslationError('chained assignment: ' + src(s))
-            self.assign(ind, s.targets[0], self.expr_or_monadic(s.value))
+            t = s.targets[0]
+            if isinstance(t, ast.Subscript) and isinstance(t.value, ast.Name) and \
+                    t.value.id in self.spec.get('dict_names', []):
+                d = mangle(t.value.id)
+                if t.value.id not in self.declared or t.value.id not in self.mut:
+                    raise TranslationError('item assignment on an undeclared / immutable name: ' + src(s))
+                self.emit(ind, '%s := Py.setItem %s %s %s' % (d, d, self.expr(t.slice), self.expr(s.value)))
+                return
+            self.assign(ind, t, self.expr_or_monadic(s.value), shadow=id(s) in self.shadow_ok)
             return
         if isinstance(s, ast.AugAssign) and isinstance(s.target, ast.Name) and \
                 isinstance(s.op, (ast.Add, ast.Sub, ast.Mult)):
@@ -495,6 +556,13 @@ class Fn:
                     return
                 self.assign(ind, t, '(if %s then %s else %s)' % (self.cond(s.test), xa, ya))
                 return
+            if isinstance(s.test, ast.BoolOp) and isinstance(s.test.op, ast.And) and not s.orelse and \
+                    '(←' in self.cond(s.test):
+                inner = s
+                for v in reversed(s.test.values):
+                    inner = ast.If(test=v, body=[inner] if inner is not s else s.body, orelse=[])
+                self.stmt(inner, ind)
+                return
             self.emit(ind, 'if %s then' % self.cond(s.test))
             saved = set(self.declared)
             self.stmts(s.body, ind + 1)
@@ -512,7 +580,10 @@ class Fn:
             self.declared = saved
             return
         if isinstance(s, ast.Return):
-            self.emit(ind, 'return %s' % (self.expr_or_monadic(s.value, inline=True) if s.value is not None else '()'))
+            val = self.expr_or_monadic(s.value, inline=True) if s.value is not None else '()'
+            if self.spec.get('returns_state'):
+                val = '(' + ', '.join([val] + [mangle(x) for x in self.spec['returns_state']]) + ')'
+            self.emit(ind, 'return %s' % val)
             return
         if isinstance(s, ast.Raise):
             exc = s.exc
@@ -564,9 +635,25 @@ class Fn:
             return
         if isinstance(s, ast.Try) and not s.finalbody and not s.orelse and s.handlers:
             # try: body  except E [as e]: handler   ->   try body catch e__ => if e__.cls == "E" then handler else throw e__
-            self.emit(ind, 'try')
+            single = self.try_single_assign(s)
             saved = set(self.declared)
-            self.stmts(s.body, ind + 1)
+            if single is not None:
+                # the handlers must not fall through (they return or raise): the name is bound by the `try` itself
+                nm = single.targets[0].id
+                rhs = self.expr_or_monadic(single.value)
+                kw = 'let ' if (id(s) in self.shadow_ok or nm not in self.mut or nm not in self.declared
+                                or nm in self.shadowed) else ''
+                mut = 'mut ' if kw and nm in self.mut and id(s) not in self.shadow_ok else ''
+                self.emit(ind, '%s%s%s ← try' % (kw, mut, mangle(nm)))
+                self.emit(ind + 1, rhs[1:].strip() if rhs.startswith('←') else 'pure %s' % rhs)
+                saved.add(nm)
+                if id(s) in self.shadow_ok:
+                    self.shadowed.add(nm)
+                else:
+                    self.shadowed.discard(nm)
+            else:
+                self.emit(ind, 'try')
+                self.stmts(s.body, ind + 1)
             self.declared = set(saved)
             self.emit(ind, 'catch e__ =>')
             first = True
@@ -607,6 +694,46 @@ class Fn:
         raise TranslationError('no rule and no pattern for the statement `%s` (%s, line %s)'
                                % (src(s).split('\n')[0], type(s).__name__, getattr(s, 'lineno', '?')))
 
+    def try_single_assign(self, s):
+        """`try: NAME = E  except …:` -> the Assign"""
+        if isinstance(s, ast.Try) and len(s.body) == 1 and isinstance(s.body[0], ast.Assign) and \
+                len(s.body[0].targets) == 1 and isinstance(s.body[0].targets[0], ast.Name):
+            return s.body[0]
+        return None
+
+    def shadowable(self, body):
+        """ids of the top-level assignment statements (`x = …`, or `try: x = …`) of a name whose NEXT assignment is
+        again at top level: these may be immutable `let`s, the next one shadows them."""
+        events = {}
+
+        def walk(stmts, depth):
+            for s in stmts:
+                single = self.try_single_assign(s)
+                if isinstance(s, ast.Assign) and len(s.targets) == 1 and isinstance(s.targets[0], ast.Name):
+                    events.setdefault(s.targets[0].id, []).append((depth, s))
+                elif single is not None:
+                    events.setdefault(single.targets[0].id, []).append((depth, s))
+                    for h in s.handlers:
+                        walk(h.body, depth + 1)
+                elif isinstance(s, (ast.Assign, ast.AugAssign)):
+                    for t in ast.walk(s.targets[0] if isinstance(s, ast.Assign) else s.target):
+                        if isinstance(t, ast.Name):
+                            events.setdefault(t.id, []).append((depth + 1, s))
+                elif isinstance(s, (ast.If, ast.For, ast.While)):
+                    walk(s.body, depth + 1)
+                    walk(s.orelse, depth + 1)
+                elif isinstance(s, ast.Try):
+                    walk(s.body, depth + 1)
+                    for h in s.handlers:
+                        walk(h.body, depth + 1)
+        walk(body, 0)
+        ok = set()
+        for nm, evs in events.items():
+            for (d1, s1), (d2, _) in zip(evs, evs[1:]):
+                if d1 == 0 and d2 == 0:
+                    ok.add(id(s1))
+        return ok
+
     def expr_or_monadic(self, n, inline=False):
         hit = self.try_patterns(n)
         if hit is not None and hit.startswith('←'):
@@ -638,6 +765,8 @@ class Fn:
             params = [a.arg for a in self.node.args.args]
         self.declared.update(params)
         self.declared.update(self.spec.get('free', []))
+        if self.spec.get('retyped_names'):
+            self.shadow_ok = self.shadowable(body)
         explicit = list(self.spec.get('loop_state', [])) + list(self.spec.get('mutable_params', []))
         for nm in params:
             # a parameter that the body assigns to (`units = self.units.get_unit(units)`), or that the spec lists as
